@@ -77,6 +77,15 @@ def main():
     else:
         violations.append({"kind": "model", "what": "model files do not build", "failing_input": False})
 
+    # ---- 3b. the networkx model itself (only where an iteration order matters) -----------
+    if model_ok and getattr(mod, "NX_TIE", False):
+        import nxtie
+        n_nx, nx_fails = nxtie.run(seed, 150 if tier == "quick" else 2000)
+        notes.append("networkx model tie: %d operation sequences, %d disagreements" % (n_nx, len(nx_fails)))
+        if nx_fails:
+            violations.append({"kind": "correspondence", "what": "Base.NX model differs from networkx on %d operation sequence(s)" % len(nx_fails),
+                               "correspondence": "Base.NX ~ networkx.Graph (insertion orders)", "case": nx_fails[0], "failing_input": False})
+
     # ---- 4. verdict -------------------------------------------------------------------
     known, fixed = lib.load_known_findings()
     known = [k for k in known if k.get("property") == pid]
